@@ -31,6 +31,8 @@ sys.path.insert(0, HERE)
 
 import coqrun  # noqa: E402
 import gen_ops  # noqa: E402
+import macro_check  # noqa: E402
+import macro_gen  # noqa: E402
 import ops as O  # noqa: E402
 import session  # noqa: E402
 from props import PROPS, CONFIGS, THOROUGH_CONFIGS, AXIOM_ALLOW  # noqa: E402
@@ -377,9 +379,44 @@ def check(pid, tier, seed):
         all_results += res
         stats_all.append((cfgname, stats))
 
+    macro_info = None
+    macro_fail = []
+    macro_diffs = []
+    if 'macro' in P:
+        mdir = os.path.join(ROOT, 'harness', 'macro_drive')
+        if not os.path.exists(os.path.join(mdir, 'Cargo.lock')):
+            sh('cp %s %s' % (os.path.join(REPO, 'Cargo.lock'), os.path.join(mdir, 'Cargo.lock')))
+        feats = ''
+        rc, out = sh('cargo build --offline --target-dir %s %s' % (os.path.join(CACHE, 'target-macro'), feats), cwd=mdir, timeout=900)
+        mbin = os.path.join(CACHE, 'target-macro', 'debug', 'macro_drive')
+        if rc != 0:
+            broken.append(('build', 'macro_drive does not build: ' + out[-1500:]))
+        else:
+            n = P['macro']['cases'] * scale
+            mcases = macro_gen.generate(mbin, seed, n, stress_ids=P['macro']['stress'])
+            if P['macro']['stress']:
+                mcases += macro_gen.generate(mbin, seed + 1, n // 2, stress_ids=False)
+            vals = macro_check.run_model(mcases, os.path.join(CACHE, 'work', 'macro-' + pid))
+            macro_diffs = [(c, v) for c, v in zip(mcases, vals) if v != 'None']
+            macro_fail = macro_check.oracle_failures(pid, mcases, mbin)
+            kinds = {}
+            for c in mcases:
+                k = '%s:%s' % (c['kind'], 'ok' if c['impl'][0] == 1 else 'err%d' % c['impl'][1])
+                kinds[k] = kinds.get(k, 0) + 1
+            macro_info = dict(cases=len(mcases), outcomes=kinds,
+                              distinct=len(set(c['line'] for c in mcases if c['impl'][0] == 1 or c['impl'][1] in (1, 2))),
+                              sample=dict(input=mcases[0]['line'], implementation=mcases[0]['raw'][:300]))
+
     violations = []
     known_hits = []
     kf = known_findings()
+    for c, msg in macro_fail[:3]:
+        path = write_replay(pid, dict(property=pid, kind='specification-violation', harness='macro_drive', input=c['line'],
+                                      implementation=c['raw'], reason=msg, broken=broken))
+        violations.append('VIOLATION property=%s replay=%s' % (pid, path))
+    if macro_diffs and not macro_fail:
+        c, v = macro_diffs[0]
+        broken.append(('correspondence', 'macro model and macro code disagree on `%s`: implementation %s, model %s' % (c['line'], c['impl'], v)))
     # 1. observations the specification forbids (for this property)
     own = [r for r in all_results if r['spec'] and r['spec']['prop'] in P['tags']]
     # 2. model / implementation disagreements, decl mismatches, deaths
@@ -490,12 +527,13 @@ def check(pid, tier, seed):
             trusted_base=['Coq 8.16.1 kernel incl. vm_compute', 'tools/extract.py (translator)', 'correspondence harness (harness/storage_harness, tools/gen_ops.py, tools/coqrun.py)',
                           'rustc/cargo', 'axioms: ' + (', '.join(axioms) if axioms else 'none (Closed under the global context)')],
             theorems=thms, cone_files=conefiles,
-            evaluations=total_cases, distinct_nontrivial=len(distinct),
+            evaluations=total_cases + (macro_info['cases'] if macro_info else 0), distinct_nontrivial=len(distinct) + (macro_info['distinct'] if macro_info else 0),
             rule='histories generated interactively from VERIF_SEED per stream; non-trivial = at least 10 operations including every kind in %s; distinct by the hash of the operation list' % sorted(need),
             traces_validated_against_impl=total_cases,
             model_disagreements=len(diffs), spec_failures=len(own),
             streams=[dict(config=cn, cases=s['cases'], ops=s['ops'], ops_by_kind=s['by_kind'], outcomes=s['outcomes']) for cn, s in stats_all],
-            samples=[sample] if sample else [],
+            samples=([sample] if sample else []) + ([macro_info['sample']] if macro_info else []),
+            macro=macro_info,
             explanation='machine-checked theorems over the model; model tied to the source by translation (coq/gen regenerated this run) and by differential execution of the same operations on the implementation',
         ),
         assumptions=['the hand-written part of the model (coq/model) mirrors the Rust it names; agreement is checked on the streams above, not proved',
@@ -514,6 +552,21 @@ def check(pid, tier, seed):
 def replay(path):
     j = json.load(open(path))
     pid = j['property']
+    if j.get('harness') == 'macro_drive':
+        mdir = os.path.join(ROOT, 'harness', 'macro_drive')
+        rc, out = sh('cargo build --offline --target-dir %s' % os.path.join(CACHE, 'target-macro'), cwd=mdir, timeout=900)
+        if rc != 0:
+            raise Internal('macro_drive build failed: ' + out[-1000:])
+        mbin = os.path.join(CACHE, 'target-macro', 'debug', 'macro_drive')
+        now = macro_gen.run_drive(mbin, [j['input']])[0]
+        print('input:          ', j['input'])
+        print('recorded output:', j['implementation'])
+        print('current output: ', now)
+        print('reason recorded:', j['reason'])
+        if now == j['implementation']:
+            print('VIOLATION property=%s replay=%s' % (pid, path))
+            return 1
+        return 0
     if j.get('kind') == 'no-failing-input-found' or 'ops_struct' not in j:
         print('replay: %s names obligations, not an input:' % path)
         print(json.dumps(j.get('broken'), indent=1))
